@@ -64,6 +64,10 @@ use tracing::{debug, error, info, info_span, trace, warn, Instrument};
 use self::envelopes::ReconEncoder;
 
 mod envelopes;
+#[cfg(feature = "verif-hooks")]
+pub mod verif_envelopes {
+    pub use super::envelopes::ReconEncoder;
+}
 #[cfg(test)]
 mod tests;
 
